@@ -166,7 +166,7 @@ def check(rng, deep):
     dmod = os.path.join(C.WORK, 'models')
     os.makedirs(dmod, exist_ok=True)
     with open(os.path.join(dmod, 'verif_c07_tiny.py'), 'w') as f:
-        f.write('from sequence_jacobian import simple\n\n@simple\ndef tiny_fg(x, y):\n    f = x + 2 * y\n    g = x * y\n    return f, g\n\n@simple\ndef tiny_e(x):\n    excess = x ** 3 - 7\n    return excess\n')
+        f.write('from sequence_jacobian import simple\n\n@simple\ndef tiny_fg(x, y):\n    f = x + 2 * y\n    g = x * y\n    return f, g\n\n@simple\ndef tiny_e(x):\n    excess = x ** 3 - 7\n    return excess\n\n@simple\ndef tiny_goal(goal):\n    goal2 = 2 * goal\n    return goal2\n')
     if dmod not in sys.path:
         sys.path.insert(0, dmod)
     importlib.invalidate_caches()
@@ -193,6 +193,19 @@ def check(rng, deep):
                 C.push(out, dict(what='a numeric target that is not a python float is not hit (brentq)', input=inp, observed=dict(excess=float(ss['excess']), x=float(ss['x'])), expected=dict(excess=1, x=2), signature=dict(op='target-kind', solver='brentq')))
         except Exception as ex_:
             C.push(out, dict(what=f'solve_steady_state (brentq) with a numeric target that is not a python float raised {type(ex_).__name__}: {ex_}', input=inp, signature=dict(op='target-kind', solver='brentq')))
+    # solved blocks whose OWN targets are a number or another variable (dict targets of @solved / Block.solved): the enclosing model's steady state must satisfy them
+    for form, tg, want in (('number', {'excess': 1.0}, lambda s_: s_['excess'] - 1.0), ('variable', {'excess': 'goal2'}, lambda s_: s_['excess'] - s_['goal2']), ('zero', ['excess'], lambda s_: s_['excess'])):
+        n += 1
+        inp = dict(kind='solved-block-targets', form=form, targets=tg if isinstance(tg, dict) else list(tg), unknown={'x': [0.0, 3.0]})
+        try:
+            sb = combine([tm.tiny_e, tm.tiny_goal], name='tiny_inner').solved(unknowns={'x': (0.0, 3.0)}, targets=tg, solver='brentq', name='tiny_solved')
+            outer = combine([sb], name='tiny_outer')
+            sso = outer.steady_state({'goal': 0.5})
+            if abs(want(sso)) > 1e-9:
+                C.push(out, dict(what='the steady state of a model containing a solved block does not satisfy the solved block\'s own target (a number / another variable)', input=inp,
+                                 observed=dict(excess=float(sso['excess']), x=float(sso['x'])), signature=dict(op='solved-block-target', form=form)))
+        except Exception as ex_:
+            C.push(out, dict(what=f'steady state of a model containing a solved block with {form} targets raised {type(ex_).__name__}: {ex_}', input=inp, signature=dict(op='solved-block-target', form=form)))
     ss = flat.solve_steady_state(dict(mm.CALIB, k=3.0), {'p': (-2.0, 2.0)}, {'res_p': 0.0}, solver='brentq')
     n += 1
     if abs(ss['res_p']) > 1e-9 or not (-2 <= ss['p'] <= 2):
